@@ -10,7 +10,8 @@ void h_Cylinder(void) {
   double h = nondet_double(), rl = nondet_double(), rh = nondet_double();
   int segs = nondet_int();
   _Bool center = nondet_bool();
-  __CPROVER_assume(h == h && rl == rl && rh == rh);
+  /* finite arguments here; NaN / infinite arguments are the subject of unit c17_guards (they must give Invalid()) */
+  __CPROVER_assume(h == h && rl == rl && rh == rh && h != INFINITY && h != -INFINITY && rl != INFINITY && rl != -INFINITY && rh != INFINITY && rh != -INFINITY);
   ghost_fell = 0;
   HARNESS_END;
   (void)Cylinder_head(h, rl, rh, segs, center);
